@@ -27,8 +27,9 @@ template <> struct Codec<std::vector<int>> {
   static long dec(const std::vector<int> &s) { return s.empty() ? 0 : s[0]; }
 };
 struct KeyS {
-  static std::string enc(long v) { return "k" + std::to_string(v) + std::string(v % 30, 'y'); }
-  static long dec(const std::string &s) { return std::stol(s.substr(1)); }
+  // keys 1..4 form a prefix chain ("k", "kk", ...), so a key comparison that looks at a prefix only is visible
+  static std::string enc(long v) { return (v >= 1 && v <= 4) ? std::string((size_t)v, 'k') : "k" + std::to_string(v) + std::string(v % 30, 'y'); }
+  static long dec(const std::string &s) { return (s.size() <= 4 && s.find_first_not_of('k') == std::string::npos) ? (long)s.size() : std::stol(s.substr(1)); }
 };
 struct KeyI {
   static int enc(long v) { return (int)v; }
@@ -87,8 +88,10 @@ struct PO : public utility::ParameterizedObject {
   using ParameterizedObject::params_begin;
   using ParameterizedObject::params_end;
 };
-static long nameDec(const std::string &s) { return std::stol(s.substr(1)); }
-static std::string nameEnc(long v) { return "n" + std::to_string(v) + std::string(v % 25, 'z'); }
+// names 1..4 form a prefix chain ("a", "aa", "aaa", "aaaa": every name is a proper prefix of the later ones, so a
+// lookup that compares prefixes instead of whole names is visible); larger numbers give long heap-allocated names
+static long nameDec(const std::string &s) { return s[0] == 'a' ? (long)s.size() : std::stol(s.substr(1)); }
+static std::string nameEnc(long v) { return v <= 4 ? std::string((size_t)v, 'a') : "n" + std::to_string(v) + std::string(v % 25, 'z'); }
 static std::string strEnc(long v) { return "s" + std::to_string(v) + std::string(v % 33, 'w'); }
 
 static std::string runP(const std::vector<std::string> &ops)
